@@ -551,6 +551,10 @@ func derivesFromField(v ssa.Value, fld *types.Var, depth int) bool {
 		}
 	case *ssa.Slice:
 		return derivesFromField(x.X, fld, depth+1)
+	case *ssa.MakeInterface:
+		return derivesFromField(x.X, fld, depth+1)
+	case *ssa.ChangeInterface:
+		return derivesFromField(x.X, fld, depth+1)
 	}
 	return false
 }
